@@ -10,7 +10,11 @@ import (
 	"database/sql"
 	"encoding/json"
 	"fmt"
+	"go/ast"
+	"go/parser"
+	"go/token"
 	"os"
+	"path/filepath"
 	"sort"
 	"strings"
 	"time"
@@ -418,10 +422,54 @@ func gFin(f Fin) string {
 	return lib.App("FFoc", lib.ListOf(f.Inline, gCond))
 }
 func term(in Input, o Obs) string {
-	return lib.App("mk_case", lib.ListOf(in.Tbl, gRec), lib.Z(in.Now), lib.ListOf(in.Chain, gCel), gFin(in.Fin),
+	return lib.App("mk_case", lib.Bool(keep), lib.ListOf(in.Tbl, gRec), lib.Z(in.Now), lib.ListOf(in.Chain, gCel), gFin(in.Fin),
 		gRec(o.Ret), lib.Z(o.RA), lib.Bool(o.Err != ""), lib.Z(o.Writes), lib.ListOf(o.Tbl, gRec),
 		lib.Bool(o.Setup != ""))
 }
+
+// ---- a fact read from the source on every run: does Statement.clone copy attrs and assigns? ----
+
+// cloneKeeps parses <repo>/statement.go and reports whether func (stmt *Statement) clone() carries
+// BOTH attrs and assigns over (as keys of the &Statement{...} literal or as assignments
+// newStmt.attrs = ... / newStmt.assigns = ...).  It is the model's parameter [keep]; the tree as it
+// is answers false.  Anything else than "both" counts as false, so a half-way change shows up as a
+// model disagreement.
+func cloneKeeps(repo string) bool {
+	fset := token.NewFileSet()
+	f, err := parser.ParseFile(fset, filepath.Join(repo, "statement.go"), nil, 0)
+	if err != nil {
+		return false
+	}
+	got := map[string]bool{}
+	for _, d := range f.Decls {
+		fd, ok := d.(*ast.FuncDecl)
+		if !ok || fd.Name.Name != "clone" || fd.Recv == nil || fd.Body == nil {
+			continue
+		}
+		ast.Inspect(fd.Body, func(n ast.Node) bool {
+			switch x := n.(type) {
+			case *ast.KeyValueExpr:
+				if id, ok := x.Key.(*ast.Ident); ok {
+					if sel, ok := x.Value.(*ast.SelectorExpr); ok && sel.Sel.Name == id.Name {
+						got[id.Name] = true
+					}
+				}
+			case *ast.AssignStmt:
+				if len(x.Lhs) == 1 && len(x.Rhs) == 1 {
+					l, ok1 := x.Lhs[0].(*ast.SelectorExpr)
+					r, ok2 := x.Rhs[0].(*ast.SelectorExpr)
+					if ok1 && ok2 && l.Sel.Name == r.Sel.Name {
+						got[l.Sel.Name] = true
+					}
+				}
+			}
+			return true
+		})
+	}
+	return got["attrs"] && got["assigns"]
+}
+
+var keep bool // set in main from the source of the tree under test
 
 // ---- the handle semantics needed for the known-finding signature (input only) --------------
 
@@ -429,7 +477,7 @@ func term(in Input, o Obs) string {
 // later Session/WithContext makes the next getInstance clone the statement (Statement.clone copies
 // neither attrs nor assigns).  Mirrors C16_Model.run_chain with keep = false.
 func dropsAttrs(in Input) bool {
-	if in.Fin.Kind != "foi" && in.Fin.Kind != "foc" {
+	if keep || (in.Fin.Kind != "foi" && in.Fin.Kind != "foc") {
 		return false
 	}
 	type h struct {
@@ -841,9 +889,15 @@ func nontrivial(in Input, o Obs) bool {
 
 func main() {
 	a := lib.ParseArgs()
+	repo := os.Getenv("VERIF_REPO")
+	if repo == "" {
+		repo = "/repo"
+	}
+	keep = cloneKeeps(repo)
 	envs := map[bool]*env{false: openEnv(false), true: openEnv(true)}
 	out := lib.NewOut(a.Out, "C16")
 	out.PerFile = 250
+	out.Extra["statement_clone_copies_attrs_and_assigns"] = keep
 
 	add := func(kind string, in Input) Obs {
 		o := run(envs[in.NoReturn], in)
